@@ -11,7 +11,7 @@ from __future__ import annotations
 
 import ast
 
-from ..astutil import assigned_targets, body_walk, call_name, call_recv, calls_in, kwarg, names_in, norm, strip_await, walk_no_nested
+from ..astutil import assigned_targets, body_walk, call_name, call_recv, calls_in, fstring_parts, kwarg, names_in, norm, strip_await, walk_no_nested
 from ..shape import Shapes, YES
 from .common import in_admission, parmap, typer, where
 
@@ -245,12 +245,58 @@ def r20_4(ctx):
         ctx.bad("R20.4", fi.module, fi.qual, "self.mbox.expunge(...) outside ready_and_okay", "POP3 QUIT expunges outside the mailbox's admission queue: it can delete messages under a running FETCH/STORE of an IMAP session (sequence numbers shift under the loop, EXPUNGE is pushed during a FETCH)", ex[0].lineno)
 
 
+def r20_7(ctx):
+    """Message numbers of the listings.  LIST and UIDL print, for each message of the snapshot that is not marked, its
+    *snapshot number* next to the size / UID looked up under that same number.  (The running count of unmarked messages is a
+    different quantity as soon as a lower-numbered message carries a DELE mark.)"""
+    p = ctx.p
+    n = 0
+    for key, look in (("pop3_client.POP3CommandHandler.do_list", "_get_msg_size"), ("pop3_client.POP3CommandHandler.do_uidl", None)):
+        fi = p.func(key)
+        ctx.analysed(fi)
+        for lp in [x for x in body_walk(fi.node) if isinstance(x, ast.For) and isinstance(x.target, ast.Name) and isinstance(x.iter, ast.Call) and call_name(x.iter) == "range"]:
+            num = lp.target.id
+            rng = norm(lp.iter)
+            if rng != "range(1, self.msg_count + 1)":
+                ctx.bad("R20.7", fi.module, fi.qual, rng, f"the listing no longer runs over the snapshot numbers 1..msg_count (`{rng}`)", lp.lineno)
+                continue
+            skip = [i for i in walk_no_nested(lp) if isinstance(i, ast.If) and isinstance(i.test, ast.Compare) and norm(i.test.left) == num and "self.deleted" in norm(i.test.comparators[0])]
+            okskip = bool(skip) and isinstance(skip[0].test.ops[0], ast.NotIn) and any(call_name(c) == "append" for st in skip[0].body for c in calls_in(st))
+            okskip = okskip or (bool(skip) and isinstance(skip[0].test.ops[0], ast.In) and any(isinstance(b, ast.Continue) for b in skip[0].body))
+            apps = [c for c in calls_in(lp) if call_name(c) == "append" and c.args and isinstance(c.args[0], ast.JoinedStr)]
+            for a in apps:
+                n += 1
+                parts = fstring_parts(a.args[0])
+                holes = [x for x in parts if not isinstance(x, str)]
+                first = holes[0] if holes else None
+                if isinstance(first, ast.Name) and first.id == num and okskip:
+                    # the second hole is looked up under the same number
+                    second = holes[1] if len(holes) > 1 else None
+                    src_ok = True
+                    if isinstance(second, ast.Name):
+                        defs = [s_.value for s_ in walk_no_nested(lp) if isinstance(s_, ast.Assign) and norm(s_.targets[0]) == second.id]
+                        src_ok = all(num in names_in(d) for d in defs) if defs else False
+                    if src_ok:
+                        ctx.ok("R20.7", where(fi), f"`{norm(a.args[0], 40)}`: snapshot number and the value looked up under it; marked messages skipped")
+                    else:
+                        ctx.bad("R20.7", fi.module, fi.qual, norm(a, 80), f"the value printed next to message number `{num}` is not looked up under that number", a.lineno)
+                else:
+                    ctx.bad(
+                        "R20.7", fi.module, fi.qual, norm(a, 80),
+                        f"the listing prints `{norm(first) if first is not None else '?'}` as the message number instead of the snapshot number `{num}` (or does not skip exactly the marked "
+                        "messages): after a DELE of a lower-numbered message the numbers LIST/UIDL show no longer agree with RETR/DELE/`LIST n`",
+                        a.lineno,
+                    )
+    ctx.floor("R20.7", n, 2, "multi-line listing lines (LIST, UIDL)")
+
+
 def run(ctx):
     ctx.do(r20_1)
     ctx.do(r20_2)
     ctx.do(r20_3)
     ctx.do(r20_4)
     ctx.do(r20_5)
+    ctx.do(r20_7)
     from . import c10, c16
     ctx.do(c10.r10_4_units, modules=("pop3_client", "mbox"))
     ctx.do(c16.r16_1)
